@@ -82,6 +82,7 @@ def dispatch (line : String) : String :=
   | "render" :: rest => handleRender rest
   | "hmap" :: rest => handleHMap rest
   | "assign" :: rest => handleAssign rest
+  | "assignat" :: rest => handleAssignAt rest
   | "spantree" :: rest => handleSpanTree rest
   | "mono" :: rest => handleMono rest
   | "monoop" :: rest => handleMonoOp rest
